@@ -25,6 +25,7 @@ def main():
     ap.add_argument("--n", type=int, default=None)
     ap.add_argument("--reverse", action="store_true", help="the diff is a fix commit: apply it in reverse")
     ap.add_argument("--scratch", action="store_true", help="apply the change to a scratch worktree (VERIF_REPO) instead of /repo")
+    ap.add_argument("--snapshot", action="store_true", help="run the checks from a scratch worktree of /verif at HEAD (the live tree may be edited meanwhile)")
     a = ap.parse_args()
     d = os.path.join(VERIF, "seeded", a.id)
     meta = json.load(open(os.path.join(d, "meta.json")))
@@ -47,23 +48,34 @@ def main():
         print("patch does not apply:", r.stderr)
         return 2
     results = {}
+    vroot = VERIF
+    if a.snapshot:
+        vroot = "/tmp/verif_snap_%s" % a.id
+        sh("git -C %s worktree remove --force %s" % (VERIF, vroot))
+        r = sh("git -C %s worktree add --detach %s HEAD" % (VERIF, vroot))
+        if r.returncode != 0:
+            print("cannot create /verif snapshot:", r.stderr)
+            return 2
     try:
         for c in checks:
             for seed in a.seeds.split(","):
                 t0 = time.time()
-                cmd = "%s %s/dst/check.py %s --tier quick" % (sys.executable, VERIF, c)
+                cmd = "%s %s/dst/check.py %s --tier quick" % (sys.executable, vroot, c)
                 if a.n:
                     cmd += " --n %d" % a.n
                 env = dict(os.environ, VERIF_SEED=seed, VERIF_EVIDENCE_DIR="/tmp/seeded_evidence_%s" % a.id)
                 os.makedirs(env["VERIF_EVIDENCE_DIR"], exist_ok=True)
                 if a.scratch:
                     env["VERIF_REPO"] = target
-                cp = sh(cmd, env=env, cwd=VERIF)
+                cp = sh(cmd, env=env, cwd=vroot)
                 lines = [l for l in cp.stdout.splitlines() if l.startswith("VIOLATION") or l.startswith("  R") or l.startswith("  H")]
                 results["%s@%s" % (c, seed)] = {"exit": cp.returncode, "wall_s": round(time.time() - t0, 1), "lines": lines[:8]}
                 print(c, "seed", seed, "exit", cp.returncode, lines[:4])
     finally:
         sh("rm -rf /tmp/seeded_evidence_%s" % a.id)
+        if a.snapshot:
+            sh("git -C %s worktree remove --force %s" % (VERIF, vroot))
+            sh("git -C %s worktree prune" % VERIF)
         if a.scratch:
             sh("git -C %s worktree remove --force %s" % (REPO, target))
             sh("git -C %s worktree prune" % REPO)
